@@ -4,7 +4,7 @@ import math, warnings
 import numpy as np
 from common import *
 
-IMPORTS = "From QE Require Import Base.LinAlg Base.Gauss C12.Model."
+IMPORTS = "From Coq Require Import Qabs.\nFrom QE Require Import Base.LinAlg Base.Gauss C12.Model."
 T9 = "(1 # 1000000000)"
 T7 = "(1 # 10000000)"
 T12 = "(1 # 1000000000000)"
@@ -18,9 +18,26 @@ Fixpoint prefixes {A} (l : list A) : list (list A) :=
   match l with [] => [] | x :: r => [x] :: map (cons x) (prefixes r) end.
 Definition osome {A} (r : A -> A -> bool) (a : option A) (b : A) :=
   match a with Some x => r x b | None => false end.
-Definition mom_close (tol : Q) (a b : Qmat * Qmat * Qmat * Qmat) :=
+(* every entry within the ABSOLUTE tolerance tol (a datum of the case: computed by the oracle from an exact
+   forward error bound of the float evaluation, see meta/C12.json) *)
+Definition Mabs (tol : Q) : Qmat -> Qmat -> bool :=
+  list_eqb (list_eqb (fun a b : Q => Qle_bool (Qabs (a - b)) tol)).
+Definition st_abs (tol : Q * Q) (a b : st) := Mabs (fst tol) (fst a) (fst b) && Mabs (snd tol) (snd a) (snd b).
+Fixpoint path_abs (tols : list (Q * Q)) (a b : list (option st)) : bool :=
+  match a, b with
+  | [], [] => true
+  | x :: a', y :: b' => ost_rel (st_abs (hd (0, 0) tols)) x y && path_abs (tl tols) a' b'
+  | _, _ => false
+  end.
+Definition mom_abs (tol : Q) (a b : Qmat * Qmat * Qmat * Qmat) :=
   let '(a1, a2, a3, a4) := a in let '(b1, b2, b3, b4) := b in
-  Qss_close tol a1 b1 && Qss_close tol a2 b2 && Qss_close tol a3 b3 && Qss_close tol a4 b4.
+  Mabs tol a1 b1 && Mabs tol a2 b2 && Mabs tol a3 b3 && Mabs tol a4 b4.
+Fixpoint list_abs {A} (r : Q -> A -> A -> bool) (tols : list Q) (a b : list A) : bool :=
+  match a, b with
+  | [], [] => true
+  | x :: a', y :: b' => match tols with [] => false | t :: tols' => r t x y && list_abs r tols' a' b' end
+  | _, _ => false
+  end.
 """
 FINISH = dict(level="proof", technique_note=(
     "Coq theorems (coq/C12/Props.v) about the executable exact-rational model coq/C12/Model.v (Kalman recursion, "
@@ -102,6 +119,41 @@ def mclose(A, B, tol):
     return len(A) == len(B) and all(len(r) == len(s) and all(close(a, b, tol) for a, b in zip(r, s)) for r, s in zip(A, B))
 
 
+def mabs(A, B, tol):
+    """every entry of A within the absolute tolerance tol of B (same shapes)"""
+    A = fm(A)
+    return len(A) == len(B) and all(len(r) == len(s) and all(abs(a - b) <= tol for a, b in zip(r, s)) for r, s in zip(A, B))
+
+
+def ninf(M):
+    """infinity norm (max absolute row sum), exact"""
+    return max([sum(abs(v) for v in r) for r in M] + [Fraction(0)]) if M else Fraction(0)
+
+
+def mabsval(M):
+    return [[abs(v) for v in r] for r in M]
+
+
+def cond_inf(M):
+    """exact condition number ||M|| ||M^-1|| in the infinity norm; None if singular"""
+    Mi = fsolve(M, ident(len(M)))
+    return None if Mi is None else ninf(M) * ninf(Mi)
+
+
+U0 = 2.0 ** -52
+FLOOR = 1e-12          # relative floor of every tolerance
+
+
+def tolq(e, ref):
+    """absolute tolerance as an exact rational: forward error bound e plus the floor FLOOR * (1 + ||ref||)"""
+    return Fraction(float(e) * 1.000001 + FLOOR * (1.0 + float(ninf(ref))))
+
+
+def tol_class(tol, ref):
+    r = float(tol) / (1.0 + float(ninf(ref)))
+    return "tol<=1e-9" if r <= 1e-9 else "tol<=1e-6" if r <= 1e-6 else "ill-conditioned(tol<=1e-2)" if r <= 1e-2 else "ill-conditioned(not compared)"
+
+
 def fl(M):
     return [[float(x) for x in r] for r in M]
 
@@ -156,6 +208,18 @@ def gen_C(rng, n, m, kind):
 
 
 def gen_H(rng, k, l, kind):
+    """square / triangular / symmetric kinds are k x k and non-diagonal for k >= 2 (H H' differs from H * H' elementwise)"""
+    if kind in ("square", "triangular", "symmetric"):
+        H = rmat(rng, k, k, -4, 4, 4, 0.0)
+        for i in range(k):
+            for j in range(k):
+                if H[i][j] == 0:
+                    H[i][j] = Fraction(3, 4)
+                if kind == "triangular" and j > i:
+                    H[i][j] = Fraction(0)
+                if kind == "symmetric" and j > i:
+                    H[i][j] = H[j][i]
+        return H
     if kind == "zero":
         return zeros(k, l)
     if kind == "singular":
@@ -197,7 +261,9 @@ def gen_model(rng, n=None, kindA=None):
     if kindA == "float53":
         n = min(n, 2)
     kindC = rng.choice(["full", "full", "singular", "zero"])
-    kindH = rng.choice(["full", "full", "singular", "zero"])
+    kindH = rng.choice(["full", "full", "singular", "zero", "square", "triangular", "symmetric"])
+    if kindH in ("square", "triangular", "symmetric"):
+        l = k
     d = dict(n=n, m=m, k=k, l=l, kindA=kindA, kindC=kindC, kindH=kindH,
              A=gen_A(rng, n, kindA), C=gen_C(rng, n, m, kindC), G=gen_G(rng, k, n), H=gen_H(rng, k, l, kindH),
              mu0=rmat(rng, n, 1, -8, 8, 4), S0=gen_psd(rng, n))
@@ -268,18 +334,58 @@ def oracle_batch(d, ys):
     return madd(mean, mm(Sxy, Z2)), msub(Sxx, mm(Sxy, Z1))
 
 
-def check_psd(ctx, S, inp, what):
+def check_psd(ctx, S, inp, what, tol=None):
+    """symmetric and PSD up to the absolute entry tolerance tol (an entrywise error tol moves eigenvalues by <= n tol)"""
     S = np.asarray(S, dtype=float)
     sc = 1 + np.max(np.abs(S)) if S.size else 1
-    if np.max(np.abs(S - S.T)) > 1e-11 * sc:
+    tol = 1e-11 * sc if tol is None else max(float(tol), 1e-13 * sc)
+    if np.max(np.abs(S - S.T)) > 2 * tol:
         ctx.fail("kalman_cov_symmetric", what + " is not symmetric", inp, S.tolist(), None)
         return
     ev = np.linalg.eigvalsh((S + S.T) / 2)
-    if ev.min() < -1e-10 * sc:
+    if ev.min() < -(len(S) + 1) * tol - 1e-13 * sc:
         ctx.fail("kalman_cov_psd", what + " is not positive semidefinite", inp, S.tolist(), float(ev.min()))
 
 
 # ------------------------------------------------------------------ Kalman
+def exact_ops(d, xh, S, ops):
+    """Exact state after each operation (Fractions; prior_to_filtered = Gaussian conditioning of N(xh, S) on
+    y = G x + H v, filtered_to_forecast = law of A x + C w) together with a first-order forward error bound
+    (absolute, max norm) of the float evaluation of these formulas, driven by exactly computed norms and by
+    ||F^-1||: one entry ((xh, S), e_x, e_S) per operation; None at a singular F.
+    ops: list of (kind, y) with kind in 'F' (prior_to_filtered), 'T' (filtered_to_forecast), 'U' (update)."""
+    A, C, G, H = d["A"], d["C"], d["G"], d["H"]
+    u = U0 * 8 * max(d["n"], d["m"], d["k"], d["l"])
+    R = mm(H, mt(H)); Qm = mm(C, mt(C))
+    nA, nAt, nG, nGt, nR, nQ = [float(ninf(z)) for z in (A, mt(A), G, mt(G), R, Qm)]
+    ex = eS = 0.0
+    out = []
+    for kind, y in ops:
+        if kind in "FU":
+            F = madd(mm(mm(G, S), mt(G)), R)
+            Fi = fsolve(F, ident(d["k"]))
+            if Fi is None:
+                out.append(None)
+                break
+            E = mm(S, mt(G)); M = mm(E, Fi); inn = msub(y, mm(G, xh))
+            nS, nFi, nF, nE, nM, nin, nx, ny = [float(ninf(z)) for z in (S, Fi, F, E, M, inn, xh, y)]
+            eF = nG * nGt * eS + u * (nG * nS * nGt + nR)
+            eFi = nFi * nFi * eF + u * nF * nFi * nFi
+            eE = eS * nGt + u * nS * nGt
+            eM = eE * nFi + nE * eFi + u * nE * nFi
+            ein = nG * ex + u * (ny + nG * nx)
+            ex = ex + eM * nin + nM * ein + u * (nx + nM * nin)
+            eS = eS + eM * nG * nS + nM * nG * eS + u * (nS + nM * nG * nS)
+            xh = madd(xh, mm(M, inn)); S = msub(S, mm(M, mm(G, S)))
+        if kind in "TU":
+            nx, nS = float(ninf(xh)), float(ninf(S))
+            ex = nA * ex + u * nA * nx
+            eS = nA * nAt * eS + u * (nA * nS * nAt + nQ)
+            xh = mm(A, xh); S = madd(mm(mm(A, S), mt(A)), Qm)
+        out.append(((xh, S), ex, eS))
+    return out
+
+
 def run_kalman_impl(d, ys):
     from quantecon import Kalman
     kn = Kalman(mk_lss(d), npm(d["mu0"]), npm(d["S0"]))
@@ -300,16 +406,36 @@ def ost_lit(s):
     return "None" if s is None else "(Some (%s, %s))" % (qm(s[0]), qm(s[1]))
 
 
-def kalman_case_lit(d, ys, impl):
+def tols_lit(tols):
+    return "[" + "; ".join(tup(qlit(a), qlit(b)) for a, b in tols) + "]" if tols else "(@nil (Q * Q))"
+
+
+def kalman_case_lit(d, ys, impl, tols):
     return tup(dims(d), qm(d["A"]), qm(d["C"]), qm(d["G"]), qm(d["H"]), qm(d["mu0"]), qm(d["S0"]),
-               "[" + "; ".join(qm(y) for y in ys) + "]", "[" + "; ".join(ost_lit(s) for s in impl) + "]")
+               "[" + "; ".join(qm(y) for y in ys) + "]", "[" + "; ".join(ost_lit(s) for s in impl) + "]", tols_lit(tols))
 
 
-KAL_TYPE = "nat * nat * nat * nat * Qmat * Qmat * Qmat * Qmat * Qmat * Qmat * list Qmat * list (option st)"
-KAL_OK = ("fun c => let '(n, m, k, l, A, C, G, H, xh, S0, ys, impl) := c in "
+KAL_TYPE = "nat * nat * nat * nat * Qmat * Qmat * Qmat * Qmat * Qmat * Qmat * list Qmat * list (option st) * list (Q * Q)"
+KAL_OK = ("fun c => let '(n, m, k, l, A, C, G, H, xh, S0, ys, impl, tols) := c in "
           "let path := kalman_path n m k l A C G H (xh, S0) ys in "
-          "list_eqb (ost_rel (st_close %s)) path impl && "
-          "(if Nat.eqb (length path) (length ys) then ost_rel st_eq (last path None) (batch_conditional n m k l A C G H xh S0 ys) else true)" % T9)
+          "path_abs tols path impl && "
+          "(if Nat.eqb (length path) (length ys) then ost_rel st_eq (last path None) (batch_conditional n m k l A C G H xh S0 ys) else true)")
+
+
+def step_tolerances(steps):
+    """[(tol_x, tol_S)] per step and the class of the loosest one"""
+    tols, worst = [], "tol<=1e-9"
+    order = ["tol<=1e-9", "tol<=1e-6", "ill-conditioned(tol<=1e-2)", "ill-conditioned(not compared)"]
+    for st in steps:
+        if st is None:
+            break
+        (xe, Se), ex, eS = st
+        tx, tS = tolq(ex, xe), tolq(eS, Se)
+        tols.append((tx, tS))
+        for cl in (tol_class(tx, xe), tol_class(tS, Se)):
+            if order.index(cl) > order.index(worst):
+                worst = cl
+    return tols, worst
 
 
 def gen_obs(rng, k, t):
@@ -352,6 +478,10 @@ def kalman_checks(ctx, N, limit):
                          "impl_x_hat": impl[-1][0] if impl and impl[-1] else None})
         ctx.count("kalman:n=%d" % d["n"]); ctx.count("kalman:k=%d" % d["k"]); ctx.count("kalman:t=%d" % t)
         ctx.count("kalman:A=" + d["kindA"]); ctx.count("kalman:C=" + d["kindC"]); ctx.count("kalman:H=" + d["kindH"])
+        # tolerance: exact forward error bound of the float recursion (conditioning of every F_t enters through ||F_t^-1||)
+        steps = exact_ops(d, d["mu0"], d["S0"], [("U", y) for y in ys])
+        tols, cls = step_tolerances(steps)
+        ctx.count("kalman:" + cls)
         # oracle: after every prefix the state equals the exact conditional law; covariance symmetric PSD
         if len(impl) != t:
             ctx.fail("kalman_raises", "update raised LinAlgError although Var(y) is non-singular", inp, None, None)
@@ -361,14 +491,20 @@ def kalman_checks(ctx, N, limit):
                 ctx.fail("kalman_raises", "update raised LinAlgError although Var(y) is non-singular", pin, None, None)
                 break
             exact = ob if j + 1 == t else oracle_batch(d, ys[:j + 1])
-            if not mclose(s[0], exact[0], Fraction(1, 10**9)) or not mclose(s[1], exact[1], Fraction(1, 10**9)):
-                ctx.fail("kalman_conditioning", "x_hat/Sigma after the record differ from the exact conditional mean/covariance",
-                         pin, s, [fl(exact[0]), fl(exact[1])])
+            tx, tS = tols[j]
+            if tol_class(tx, exact[0]).endswith("(not compared)") or tol_class(tS, exact[1]).endswith("(not compared)"):
+                break           # error bound above 1e-2 of the state's size: float result carries no information
+            if not mabs(s[0], exact[0], tx) or not mabs(s[1], exact[1], tS):
+                ctx.fail("kalman_conditioning", "x_hat/Sigma after the record differ from the exact conditional mean/covariance "
+                         "by more than the forward error bound of the float recursion",
+                         dict(pin, tol_x=float(tx), tol_Sigma=float(tS)), s, [fl(exact[0]), fl(exact[1])])
                 break
-            check_psd(ctx, s[1], pin, "Kalman.Sigma")
-        if coq_cost(d, t) <= limit:
+            check_psd(ctx, s[1], pin, "Kalman.Sigma", tol=tS)
+        if cls.startswith("ill-conditioned"):
+            ctx.count("kalman:oracle_only(ill-conditioned)")
+        elif coq_cost(d, t) <= limit:
             ctx.count("kalman:model_and_oracle")
-            cases.append(kalman_case_lit(d, ys, impl))
+            cases.append(kalman_case_lit(d, ys, impl, tols))
             meta.append((inp, impl, coq_cost(d, t)))
         else:
             ctx.count("kalman:oracle_only(cost>limit)")
@@ -383,12 +519,114 @@ def kalman_checks(ctx, N, limit):
         ctx.count("kalman:singular_F(zero)")
         if impl != [None]:
             ctx.fail("kalman_singular_accepted", "F is exactly zero but update returned a state", inp, impl, "LinAlgError")
-        cases.append(kalman_case_lit(d, ys, impl))
+        cases.append(kalman_case_lit(d, ys, impl, []))
         meta.append((inp, impl, 0))
     order = sorted(range(len(cases)), key=lambda i: -meta[i][2])      # expensive cases first: better load balance
     bad = ctx.coq_check("kalman_update_and_batch", IMPORTS, KAL_TYPE, KAL_OK, [cases[i] for i in order], chunk=2, preamble=PRE)
     for i in bad:
         ctx.mismatch("C12.Model.kalman_path / batch_conditional vs Kalman.update", meta[order[i]][0], meta[order[i]][1])
+
+
+def ops_checks(ctx, N, limit):
+    """prior_to_filtered / filtered_to_forecast / update in any order from a freshly set prior; float, integer-dtype,
+    default and aliased priors (the LinearStateSpace's own mu_0 / Sigma_0, or arrays kept by the caller). After every
+    operation: the Kalman state against the model and the exact oracle, and every array owned by the caller or by the
+    LinearStateSpace unchanged (values, dtype, shape)."""
+    from quantecon import Kalman
+    cases, meta = [], []
+    done = tries = 0
+    priors = ["float", "int", "alias_ss", "alias_caller_1d", "default"]
+    while done < N and tries < 20 * N:
+        tries += 1
+        d = gen_model(ctx.rng, kindA=ctx.rng.choice(["stable", "unstable", "fine"]))
+        n, k = d["n"], d["k"]
+        prior = priors[done % len(priors)]
+        if prior == "int":
+            B = [[Fraction(ctx.rng.randint(-2, 2)) for _ in range(n)] for _ in range(n)]
+            d["mu0"] = [[Fraction(ctx.rng.randint(-5, 5))] for _ in range(n)]
+            d["S0"] = mm(B, mt(B))
+        elif prior == "default":
+            d["mu0"] = zeros(n, 1); d["S0"] = ident(n)
+        nops = ctx.rng.randint(1, 5)
+        kinds = ["T", "F", "U"][(done // len(priors)) % 3] + "".join(ctx.rng.choice("TFU") for _ in range(nops - 1))
+        ops = [(c, None if c == "T" else fm(fl(rmat(ctx.rng, k, 1, -8, 8, 4)))) for c in kinds]
+        steps = exact_ops(d, d["mu0"], d["S0"], ops)
+        if any(st is None for st in steps):
+            ctx.count("kalman_ops:regenerated_singular_F")
+            continue
+        tols, cls = step_tolerances(steps)
+        if cls.endswith("(not compared)"):
+            ctx.count("kalman_ops:regenerated_ill_conditioned")
+            continue
+        done += 1
+        ss = mk_lss(d)
+        if prior == "float":
+            xa, Sa = npm(d["mu0"]), npm(d["S0"])
+        elif prior == "int":
+            xa = np.array([[int(v[0])] for v in d["mu0"]], dtype=np.int64)
+            Sa = np.array([[int(v) for v in r] for r in d["S0"]], dtype=np.int64)
+        elif prior == "alias_ss":
+            xa, Sa = ss.mu_0, ss.Sigma_0
+        elif prior == "alias_caller_1d":
+            xa, Sa = np.array([float(v[0]) for v in d["mu0"]]), npm(d["S0"])
+        else:
+            xa = Sa = None
+        kn = Kalman(ss) if prior == "default" else Kalman(ss, xa, Sa)
+        yarrs = [None if y is None else (npm(y) if ctx.rng.random() < 0.5 else np.array([float(v[0]) for v in y])) for _, y in ops]
+        watched = {"caller x_hat": xa, "caller Sigma": Sa, "ss.mu_0": ss.mu_0, "ss.Sigma_0": ss.Sigma_0, "ss.A": ss.A, "ss.C": ss.C,
+                   "ss.G": ss.G, "ss.H": ss.H}
+        watched.update({"y[%d]" % i: ya for i, ya in enumerate(yarrs)})
+        watched = {name: (arr, arr.copy(), arr.dtype, arr.shape) for name, arr in watched.items() if arr is not None}
+        inp = dict(model_json(d), prior=prior, ops=kinds, ys=[None if y is None else fl(y) for _, y in ops])
+        ctx.case(("kalman_ops", str(inp)), nontrivial=(n >= 2 and nops >= 2))
+        ctx.count("kalman_ops:prior=" + prior); ctx.count("kalman_ops:first=" + kinds[0]); ctx.count("kalman_ops:" + cls)
+        impl = []
+        for i, (c, _) in enumerate(ops):
+            with warnings.catch_warnings():
+                warnings.simplefilter("ignore")
+                if c == "T":
+                    kn.filtered_to_forecast()
+                elif c == "F":
+                    kn.prior_to_filtered(yarrs[i])
+                else:
+                    kn.update(yarrs[i])
+            state = (np.asarray(kn.x_hat, dtype=float).tolist(), np.asarray(kn.Sigma, dtype=float).tolist())
+            impl.append(state)
+            sin = dict(inp, step=i + 1)
+            for name, (arr, copy, dt, shp) in watched.items():
+                if arr.dtype != dt or arr.shape != shp or not np.array_equal(arr, copy):
+                    ctx.fail("kalman_mutates_input", "%s was modified by Kalman.%s" % (name, {"T": "filtered_to_forecast", "F": "prior_to_filtered", "U": "update"}[c]),
+                             sin, arr.tolist(), copy.tolist())
+                    break
+            (xe, Se), _, _ = steps[i]
+            tx, tS = tols[i]
+            if np.asarray(kn.x_hat).shape != (n, 1) or np.asarray(kn.Sigma).shape != (n, n):
+                ctx.fail("kalman_ops", "state has the wrong shape", sin, state, None)
+                break
+            if not mabs(state[0], xe, tx) or not mabs(state[1], Se, tS):
+                ctx.fail("kalman_ops", "state after the operation sequence differs from the exact conditioning / forecast moments",
+                         dict(sin, tol_x=float(tx), tol_Sigma=float(tS)), state, [fl(xe), fl(Se)])
+                break
+        # the model's own law must be what it was: first term of moment_sequence
+        mx0, _, Sx0, _ = next(ss.moment_sequence())
+        if not mabs(mx0, d["mu0"] if prior != "default" else fm(ss.mu_0), 0) or not mabs(Sx0, d["S0"] if prior != "default" else fm(ss.Sigma_0), 0):
+            ctx.fail("kalman_mutates_input", "moment_sequence of the LinearStateSpace changed after filtering", inp,
+                     [np.asarray(mx0).tolist(), np.asarray(Sx0).tolist()], [fl(d["mu0"]), fl(d["S0"])])
+        if cls.startswith("ill-conditioned") or coq_cost(d, nops) > limit:
+            ctx.count("kalman_ops:oracle_only")
+            continue
+        oplit = "[" + "; ".join("KForecast" if c == "T" else "(%s %s)" % ("KFilter" if c == "F" else "KUpdate", qm(y)) for c, y in ops) + "]"
+        cases.append(tup(dims(d), qm(d["A"]), qm(d["C"]), qm(d["G"]), qm(d["H"]), qm(d["mu0"]), qm(d["S0"]), oplit,
+                         "[" + "; ".join(ost_lit(st) for st in impl) + "]", tols_lit(tols)))
+        meta.append((inp, impl, coq_cost(d, nops)))
+    order = sorted(range(len(cases)), key=lambda i: -meta[i][2])
+    ok = ("fun c => let '(n, m, k, l, A, C, G, H, xh, S0, ops, impl, tols) := c in "
+          "path_abs tols (kalman_ops n m k l A C G H (xh, S0) ops) impl")
+    bad = ctx.coq_check("kalman_operation_sequences", IMPORTS,
+                        "nat * nat * nat * nat * Qmat * Qmat * Qmat * Qmat * Qmat * Qmat * list (@kop Q) * list (option st) * list (Q * Q)",
+                        ok, [cases[i] for i in order], chunk=3, preamble=PRE)
+    for i in bad:
+        ctx.mismatch("C12.Model.kalman_ops vs Kalman.prior_to_filtered/filtered_to_forecast/update sequences", meta[order[i]][0], meta[order[i]][1])
 
 
 def stationary_checks(ctx, N):
@@ -428,20 +666,26 @@ def stationary_checks(ctx, N):
             continue
         M = mm(mm(Sf, mt(G)), Fi)
         Snext = madd(mm(mm(A, msub(Sf, mm(M, mm(G, Sf)))), mt(A)), Qm)
-        if not mclose(S, Snext, Fraction(1, 10**7)):
+        # Sigma_infinity comes from an iteration stopped at 1e-10: residual of the fixed-point equation within 1e-7 of its size
+        tolS = Fraction(1e-7 * (1.0 + float(ninf(Sf))))
+        if not mabs(S, Snext, tolS):
             ctx.fail("stationary_fixed_point", "Sigma_infinity is not a fixed point of the covariance update", inp, S.tolist(), fl(Snext))
         Kex = mm(A, M)
-        if not mclose(K, Kex, Fraction(1, 10**9)):
-            ctx.fail("stationary_gain", "K_infinity != A Sigma G'(G Sigma G' + R)^-1", inp, K.tolist(), fl(Kex))
+        # K is one product and one inverse away from Sigma_infinity: forward error u ||A Sigma G'|| ||F^-1|| (1 + cond F)
+        u = U0 * 8 * max(d["n"], d["k"], d["l"])
+        tolK = tolq(u * float(ninf(mm(mm(A, Sf), mt(G)))) * float(ninf(Fi)) * (1.0 + float(ninf(F) * ninf(Fi))), Kex)
+        ctx.count("stationary_values:K " + tol_class(tolK, Kex))
+        if not mabs(K, Kex, tolK):
+            ctx.fail("stationary_gain", "K_infinity != A Sigma G'(G Sigma G' + R)^-1", dict(inp, tol=float(tolK)), K.tolist(), fl(Kex))
         if S2 is not S or K2 is not K:
             ctx.fail("stationary_cache", "Sigma_infinity/K_infinity properties do not return the computed values", inp, None, None)
-        check_psd(ctx, S, inp, "Sigma_infinity")
-        cases.append(tup(dims(d), qm(A), qm(C), qm(G), qm(H), qm(S.tolist()), qm(K.tolist())))
+        check_psd(ctx, S, inp, "Sigma_infinity", tol=float(tolS))
+        cases.append(tup(dims(d), qm(A), qm(C), qm(G), qm(H), qm(S.tolist()), qm(K.tolist()), qlit(tolK), qlit(tolS)))
         meta.append(inp)
-    ok = ("fun c => let '(n, m, k, l, A, C, G, H, Sg, Kg) := c in "
-          "osome (Qss_close %s) (stationary_K n k l A G H Sg) Kg && "
-          "match update n m k l A C G H (mzero n 1, Sg) (mzero k 1) with Some a => Qss_close %s (snd a) Sg | None => false end" % (T9, T7))
-    bad = ctx.coq_check("kalman_stationary_values", IMPORTS, "nat * nat * nat * nat * Qmat * Qmat * Qmat * Qmat * Qmat * Qmat", ok,
+    ok = ("fun c => let '(n, m, k, l, A, C, G, H, Sg, Kg, tolK, tolS) := c in "
+          "osome (Mabs tolK) (stationary_K n k l A G H Sg) Kg && "
+          "match update n m k l A C G H (mzero n 1, Sg) (mzero k 1) with Some a => Mabs tolS (snd a) Sg | None => false end")
+    bad = ctx.coq_check("kalman_stationary_values", IMPORTS, "nat * nat * nat * nat * Qmat * Qmat * Qmat * Qmat * Qmat * Qmat * Q * Q", ok,
                         cases, chunk=max(1, len(cases) // 6), preamble=PRE)
     for i in bad:
         ctx.mismatch("C12.Model.stationary_K / update fixed point vs Kalman.stationary_values", meta[i])
@@ -450,7 +694,7 @@ def stationary_checks(ctx, N):
 # ------------------------------------------------------------------ LinearStateSpace: moments, impulse, geometric sums
 def lss_checks(ctx, N):
     mom_cases, imp_cases, geo_cases, meta = [], [], [], []
-    geo_meta = []
+    geo_meta, imp_meta = [], []
     for ci in range(N):
         d = gen_model(ctx.rng)
         with_H = ctx.rng.random() < 0.7
@@ -466,6 +710,12 @@ def lss_checks(ctx, N):
         gen = ss.moment_sequence()
         seq = [next(gen) for _ in range(T)]
         Q_ = mm(C, mt(C)); R = mm(H, mt(H)) if with_H else zeros(k, k)
+        # running error bound of the float recursion: the same recursion on absolute values (|A| |S| |A'| + |C||C'| ...)
+        u = U0 * 8 * max(n, m, k, l)
+        Aa, Ga = mabsval(A), mabsval(G)
+        Qa = mm(mabsval(C), mabsval(mt(C))); Ra = mm(mabsval(H), mabsval(mt(H))) if with_H else zeros(k, k)
+        mua, Sa = mabsval(mu0), mabsval(S0)
+        mom_tols = []
         for t_, (mx, my, Sx, Sy) in enumerate(seq):
             At = mpow(A, t_)
             ex_mx = mm(At, mu0)
@@ -473,29 +723,42 @@ def lss_checks(ctx, N):
             for j in range(t_):
                 Aj = mpow(A, j)
                 ex_Sx = madd(ex_Sx, mm(mm(Aj, Q_), mt(Aj)))
-            tol = Fraction(1, 10**12)
-            if not (mclose(mx, ex_mx, tol) and mclose(Sx, ex_Sx, tol) and mclose(my, mm(G, ex_mx), tol)
-                    and mclose(Sy, madd(mm(mm(G, ex_Sx), mt(G)), R), tol)):
+            ex_my, ex_Sy = mm(G, ex_mx), madd(mm(mm(G, ex_Sx), mt(G)), R)
+            big = max(ninf(mua), ninf(Sa), ninf(mm(Ga, mua)), ninf(madd(mm(mm(Ga, Sa), mt(Ga)), Ra)))
+            tol = Fraction(u * (2 * t_ + 3) * float(big) * 1.000001 + FLOOR * (1.0 + float(max(ninf(ex_mx), ninf(ex_Sx), ninf(ex_my), ninf(ex_Sy)))))
+            mom_tols.append(tol)
+            if not (mabs(mx, ex_mx, tol) and mabs(Sx, ex_Sx, tol) and mabs(my, ex_my, tol) and mabs(Sy, ex_Sy, tol)):
                 ctx.fail("lss_moments", "moment_sequence term differs from A^t mu_0 / A^t S_0 A'^t + sum A^j CC' A'^j / G.. + HH'",
-                         dict(inp, t=t_), [np.asarray(z).tolist() for z in (mx, my, Sx, Sy)], [fl(ex_mx), fl(ex_Sx)])
+                         dict(inp, t=t_, tol=float(tol)), [np.asarray(z).tolist() for z in (mx, my, Sx, Sy)], [fl(ex_mx), fl(ex_my), fl(ex_Sx), fl(ex_Sy)])
                 break
+            mua, Sa = mm(Aa, mua), madd(mm(mm(Aa, Sa), mt(Aa)), Qa)
         mom_cases.append(tup(dims(d), qm(A), qm(C), qm(G), "(Some %s)" % qm(H) if with_H else "None", qm(mu0), qm(S0),
-                             "[" + "; ".join(tup(*[qm(np.asarray(z).tolist()) for z in term]) for term in seq) + "]"))
+                             "[" + "; ".join(tup(*[qm(np.asarray(z).tolist()) for z in term]) for term in seq) + "]", qlist(mom_tols)))
         # ---- impulse_response
         j = T
         xc, yc = ss.impulse_response(j)
         if len(xc) != j + 1 or len(yc) != j + 1:
             ctx.fail("lss_impulse", "impulse_response(j) does not return j+1 coefficients", inp, [len(xc), len(yc)], j + 1)
         else:
+            Ca = mabsval(C); Aia = ident(n)
+            imp_tols = []
             for i in range(j + 1):
                 AiC = mm(mpow(A, i), C)
-                if not (mclose(xc[i], AiC, Fraction(1, 10**12)) and mclose(yc[i], mm(G, AiC), Fraction(1, 10**12))):
+                big = max(ninf(mm(Aia, Ca)), ninf(mm(Ga, mm(Aia, Ca))))
+                tol = Fraction(u * (i + 3) * float(big) * 1.000001 + FLOOR * (1.0 + float(max(ninf(AiC), ninf(mm(G, AiC))))))
+                imp_tols.append(tol)
+                Aia = mm(Aia, Aa)
+            for i in range(j + 1):
+                AiC = mm(mpow(A, i), C)
+                if not (mabs(xc[i], AiC, imp_tols[i]) and mabs(yc[i], mm(G, AiC), imp_tols[i])):
                     ctx.fail("lss_impulse", "coefficient i is not A^i C / G A^i C", dict(inp, i=i),
                              [np.asarray(xc[i]).tolist(), np.asarray(yc[i]).tolist()], [fl(AiC), fl(mm(G, AiC))])
                     break
-        imp_cases.append(tup(dims(d), qm(A), qm(C), qm(G), "%d%%nat" % j,
-                             "[" + "; ".join(qm(np.asarray(z).tolist()) for z in xc) + "]",
-                             "[" + "; ".join(qm(np.asarray(z).tolist()) for z in yc) + "]"))
+        if len(xc) == j + 1 and len(yc) == j + 1:
+            imp_cases.append(tup(dims(d), qm(A), qm(C), qm(G), "%d%%nat" % j,
+                                 "[" + "; ".join(qm(np.asarray(z).tolist()) for z in xc) + "]",
+                                 "[" + "; ".join(qm(np.asarray(z).tolist()) for z in yc) + "]", qlist(imp_tols)))
+            imp_meta.append(inp)
         meta.append(inp)
         # ---- geometric_sums
         beta = frac(float(ctx.rng.choice([Fraction(1, 2), Fraction(3, 4), Fraction(15, 16), Fraction(19, 20), Fraction(1), Fraction(1, 8)])))
@@ -510,29 +773,39 @@ def lss_checks(ctx, N):
                 warnings.simplefilter("ignore")
                 Sx, Sy = ss.geometric_sums(float(beta), npm(xt))
             ctx.count("geometric_sums:cases")
-            scale = max(abs(v) for r in exS for v in r) + 1
-            # ill-conditioned (I - beta A) loses digits in LAPACK; accept 1e-9 relative to the solution's size
-            if not mclose(mm(IbA, fm(Sx)), xt, Fraction(1, 10**9) * scale) \
-               or not mclose(Sy, mm(G, fm(Sx)), Fraction(1, 10**9) * scale) or not mclose(Sx, exS, Fraction(1, 10**8)):
-                ctx.fail("lss_geometric", "(I - beta A) S_x != x_t or S_y != G S_x", ginp, [Sx.tolist(), Sy.tolist()], fl(exS))
-            geo_cases.append(tup(dims(d), qm(A), qm(G), qlit(beta), qm(xt), qm(Sx.tolist()), qm(Sy.tolist())))
+            # solve is backward stable: forward error u cond(I - beta A) ||S_x||; cond computed exactly
+            kap = float(cond_inf(IbA))
+            ue = U0 * 8 * n
+            exSy = mm(G, exS)
+            tolx = tolq(ue * (kap + 1) * float(ninf(exS)), exS)
+            toly = tolq(ue * (kap + 2) * float(ninf(exS)) * float(ninf(G)), exSy)
+            tolr = tolq(ue * 4 * float(ninf(IbA)) * float(ninf(exS)) * 1.01, xt)
+            cl = tol_class(tolx, exS)
+            ctx.count("geometric_sums:" + cl)
+            if cl.endswith("(not compared)"):
+                continue
+            if not mabs(mm(IbA, fm(Sx)), xt, tolr * (1 + 100 * int(cl != "tol<=1e-9"))) and not mabs(Sx, exS, tolx):
+                ctx.fail("lss_geometric", "(I - beta A) S_x != x_t", dict(ginp, tol=float(tolx)), [Sx.tolist(), Sy.tolist()], fl(exS))
+            if not mabs(Sx, exS, tolx) or not mabs(Sy, exSy, toly):
+                ctx.fail("lss_geometric", "S_x != (I - beta A)^-1 x_t or S_y != G S_x", dict(ginp, tol=float(tolx)), [Sx.tolist(), Sy.tolist()], [fl(exS), fl(exSy)])
+            geo_cases.append(tup(dims(d), qm(A), qm(G), qlit(beta), qm(xt), qm(Sx.tolist()), qm(Sy.tolist()), qlit(tolx), qlit(toly)))
             geo_meta.append(ginp)
-    ok = ("fun c => let '(n, m, k, l, A, C, G, Ho, mu0, S0, seq) := c in "
-          "list_eqb (mom_close %s) (moment_seq n m k l A C G Ho (length seq) mu0 S0) seq" % T12)
+    ok = ("fun c => let '(n, m, k, l, A, C, G, Ho, mu0, S0, seq, tols) := c in "
+          "list_abs mom_abs tols (moment_seq n m k l A C G Ho (length seq) mu0 S0) seq")
     bad = ctx.coq_check("lss_moment_sequence", IMPORTS,
-                        "nat * nat * nat * nat * Qmat * Qmat * Qmat * option Qmat * Qmat * Qmat * list (Qmat * Qmat * Qmat * Qmat)",
+                        "nat * nat * nat * nat * Qmat * Qmat * Qmat * option Qmat * Qmat * Qmat * list (Qmat * Qmat * Qmat * Qmat) * list Q",
                         ok, mom_cases, chunk=max(1, len(mom_cases) // 8), preamble=PRE)
     for i in bad:
         ctx.mismatch("C12.Model.moment_seq vs LinearStateSpace.moment_sequence", meta[i])
-    ok = ("fun c => let '(n, m, k, l, A, C, G, j, xc, yc) := c in let '(mx, my) := impulse_response n m k A C G j in "
-          "list_eqb (Qss_close %s) mx xc && list_eqb (Qss_close %s) my yc" % (T12, T12))
-    bad = ctx.coq_check("lss_impulse_response", IMPORTS, "nat * nat * nat * nat * Qmat * Qmat * Qmat * nat * list Qmat * list Qmat",
+    ok = ("fun c => let '(n, m, k, l, A, C, G, j, xc, yc, tols) := c in let '(mx, my) := impulse_response n m k A C G j in "
+          "list_abs Mabs tols mx xc && list_abs Mabs tols my yc")
+    bad = ctx.coq_check("lss_impulse_response", IMPORTS, "nat * nat * nat * nat * Qmat * Qmat * Qmat * nat * list Qmat * list Qmat * list Q",
                         ok, imp_cases, chunk=max(1, len(imp_cases) // 8), preamble=PRE)
     for i in bad:
-        ctx.mismatch("C12.Model.impulse_response vs LinearStateSpace.impulse_response", meta[i])
-    ok = ("fun c => let '(n, m, k, l, A, G, beta, xt, Sx, Sy) := c in "
-          "osome (fun a b => Qss_close %s (fst a) (fst b) && Qss_close %s (snd a) (snd b)) (geometric_sums n k 1 A G beta xt) (Sx, Sy)" % (T7, T7))
-    bad = ctx.coq_check("lss_geometric_sums", IMPORTS, "nat * nat * nat * nat * Qmat * Qmat * Q * Qmat * Qmat * Qmat",
+        ctx.mismatch("C12.Model.impulse_response vs LinearStateSpace.impulse_response", imp_meta[i])
+    ok = ("fun c => let '(n, m, k, l, A, G, beta, xt, Sx, Sy, tolx, toly) := c in "
+          "osome (fun a b => Mabs tolx (fst a) (fst b) && Mabs toly (snd a) (snd b)) (geometric_sums n k 1 A G beta xt) (Sx, Sy)")
+    bad = ctx.coq_check("lss_geometric_sums", IMPORTS, "nat * nat * nat * nat * Qmat * Qmat * Q * Qmat * Qmat * Qmat * Q * Q",
                         ok, geo_cases, chunk=max(1, len(geo_cases) // 8), preamble=PRE)
     for i in bad:
         ctx.mismatch("C12.Model.geometric_sums vs LinearStateSpace.geometric_sums", geo_meta[i])
@@ -843,6 +1116,7 @@ def run(ctx):
     ctx.proofs()
     np.seterr(all="ignore")
     kalman_checks(ctx, 500 if thorough else 120, 12000 if thorough else 3000)
+    ops_checks(ctx, 300 if thorough else 60, 12000 if thorough else 3000)
     stationary_checks(ctx, 120 if thorough else 24)
     lss_checks(ctx, 400 if thorough else 64)
     sim_checks(ctx, 300 if thorough else 48)
